@@ -138,6 +138,9 @@ Example C10_ex_read_without_reset_rejected : check_all ex_U ex_api_readfirst [] 
 Proof. vm_compute. reflexivity. Qed.
 Example C10_ex_entropy_rejected : check_all ex_U [ex_f_none] [] 50 = false.
 Proof. vm_compute. reflexivity. Qed.
+(* ... and np.empty storage that some path reads before it is written (hidden allocator state) *)
+Example C10_ex_uninit_rejected : check_all ex_U [ex_f_uninit] [] 50 = false.
+Proof. vm_compute. reflexivity. Qed.
 
 (* the hypotheses of the theorems are satisfiable and the conclusion is observable: the accepted skeleton, run with
    seed 7 in two worlds that differ in the global stream (5 / 99) and in the stale contents of the default info
